@@ -1274,3 +1274,35 @@ def rule_template_argument_identity(ctx, rep: Report, rid="S8"):
             shared or not needed, detail + ("" if shared else "; to_cpp prints template_params while instantiate_type renames the objects in "
                                            "typename.instantiations: with copies the two no longer coincide and nested template parameters stay "
                                            "unsubstituted in the emitted C++"), f"{ci.mod.rel}:{init.lineno}", nontrivial=needed)
+
+
+def rule_scoped_replacement_spelling(ctx, rep: Report, rid="S9"):
+    """Scoped use `T::Value`: the result is a copy of the concrete type's Typename whose *name* becomes the component-wise
+    rewritten path.  That Typename keeps the concrete type's namespaces (and template arguments), and to_cpp() prints them in
+    front of / after the name; the component put in place of the parameter must therefore be the bare `.name` - a spelling
+    that already contains the namespaces (`to_cpp()`, `str()`, `qualified_name()`) prints them twice
+    (gtsam::gtsam::Pose3::Value)."""
+    prog = ctx.prog
+    fn = prog.func(f"{TI}/helpers.py", "instantiate_type")
+    mi = prog.module(f"{TI}/helpers.py")
+    sites = []
+    for st in ast.walk(fn):
+        if isinstance(st, ast.Assign) and len(st.targets) == 1 and isinstance(st.targets[0], ast.Attribute) and st.targets[0].attr == "name" \
+                and isinstance(st.value, ast.Call) and isinstance(st.value.func, ast.Attribute) and st.value.func.attr == "join" \
+                and isinstance(st.value.func.value, ast.Constant) and st.value.func.value.value == "::" and st.value.args:
+            gen = st.value.args[0]
+            if isinstance(gen, (ast.GeneratorExp, ast.ListComp)) and isinstance(gen.elt, ast.IfExp):
+                sites.append((st, gen))
+    if not sites:
+        raise AnalysisError("instantiate_type: component-wise rewrite of a scoped template name not found")
+    for st, gen in sites:
+        holder = unparse(st.targets[0].value)
+        body = gen.elt.body
+        ok = isinstance(body, ast.Attribute) and body.attr == "name" and unparse(body.value) == holder
+        keeps = not any(isinstance(x, ast.Assign) and any(isinstance(t, ast.Attribute) and unparse(t.value) == holder and t.attr in ("namespaces", "instantiations")
+                                                          for t in x.targets) for x in ast.walk(fn))
+        rep.add(rid, "scoped use:the parameter's component is replaced by the concrete type's bare name", ok,
+                f"the component is replaced by `{unparse(body)}` while `{holder}` keeps its own namespaces: they are printed twice "
+                f"(gtsam::gtsam::Pose3::Value) for every concrete type that lives in a namespace", f"{mi.rel}:{st.lineno}")
+        rep.add(rid, "scoped use:the copied Typename keeps the concrete type's namespaces and template arguments", keeps,
+                f"`{holder}`.namespaces / .instantiations are overwritten after the copy", f"{mi.rel}:{st.lineno}", nontrivial=not keeps)
